@@ -308,6 +308,12 @@ def build(spec):
         for n in labels:
             h.add_node(n)
         present = []
+        if spec.get("build") == "remove":
+            # every candidate is inserted first and the absent ones removed again below: internal ids with gaps
+            for e in cands:
+                h.add_edge(e, weight=1 if weighted else None)
+            for i, e in enumerate(cands):
+                h.remove_edge(e)
         for i, e in enumerate(cands):
             if bits[i]:
                 if weighted and spec.get("wtype") == "real":
@@ -378,7 +384,11 @@ def build_temporal(spec):
         for n in labels:
             h.add_node(n)
         present = []
-        for i, (t, e) in enumerate(recs):
+        order = list(range(len(recs)))
+        if spec.get("interleave"):
+            order = order[::2] + order[1::2]  # times are no longer contiguous in insertion order
+        for i in order:
+            t, e = recs[i]
             if bits[i]:
                 h.add_edge(e, t)
                 present.append((t, tuple(sorted(e))))
@@ -414,7 +424,8 @@ def obligations(tier, seed):
     for cname, nfix in ([("odd", 4), ("str", 4)] if q else [("odd", 4), ("str", 3), ("seq", 4)]):
         for fixed in itertools.product([0, 1], repeat=nfix):
             for weighted in (True, False):
-                out.append({"family": "matrix", "cands": cname, "fixed": list(fixed), "weighted": weighted})
+                out.append({"family": "matrix", "cands": cname, "fixed": list(fixed), "weighted": weighted,
+                            "build": "remove" if (sum(fixed) + weighted) % 2 else "add"})
             if sum(fixed) == 2 or not q:
                 out.append({"family": "matrix", "cands": cname, "fixed": list(fixed), "weighted": True, "wtype": "real"})
                 out.append({"family": "matrix", "cands": cname, "fixed": list(fixed), "weighted": True, "wtype": "frac"})
@@ -423,6 +434,7 @@ def obligations(tier, seed):
             out.append({"family": "tensor", "k": k, "fixed": list(fixed)})
     for fixed in itertools.product([0, 1], repeat=2):
         out.append({"family": "temporal", "fixed": list(fixed)})
+        out.append({"family": "temporal", "fixed": list(fixed), "interleave": True})
     return out
 
 
